@@ -167,6 +167,9 @@ func TestC09Child(t *testing.T) {
 			gate.Release()
 		case err := <-joinDone:
 			say("GATE not-reached join=%v", err)
+			// disarm: otherwise one of the harness's own lookups below could be the call that
+			// reaches the gate and would then wait for ever
+			gate.Release()
 			joinDone <- err
 		case <-time.After(5 * time.Second):
 			say("GATE timeout")
